@@ -451,6 +451,29 @@ pub fn corpus() -> Vec<Item> {
         assert!(enc.lz77_copies > 0, "corpus item {name} has no LZ77 copy");
         out.push(item(name, &img, vec![enc.bytes], 1));
     }
+    // a VarDCT layer with alpha under a Modular layer whose alpha is coded at half resolution (ec_upsampling 2): the lower
+    // layer is rendered for the requested region padded for its own filters, the upper one for a region padded for its
+    // upsampling
+    {
+        let mut tp = crate::explore::Tape::default();
+        let mut c = crate::c17::cfg_from(&mut tp);
+        c.size = (40, 24);
+        c.pattern = 0;
+        let spec = crate::c17::spec_of(&c, 5);
+        let (img, header, lower) = spec.stream_parts(&jxlw::jpeg::StreamOpts { alpha_bits: 8, not_last: true, ..Default::default() });
+        let mut fk = FrameHeader::modular_lossless(&img);
+        fk.ec_upsampling = vec![2];
+        fk.blending_info = BlendingInfo { mode: BLEND_BLEND, alpha_channel: 0, clamp: false, source: 0 };
+        fk.ec_blending_info = vec![fk.blending_info.clone()];
+        let mut ch = planes(40, 24, 3, 255, 7);
+        ch.push(tex(20, 12, 3, 255, 8));
+        let mut sk = ModularFrameSpec::new(fk, ch);
+        sk.tree = Node::leaf(5);
+        let mut b = header;
+        b.extend_from_slice(&lower);
+        b.extend_from_slice(&write_modular_frame(&img, &sk).bytes);
+        out.push(Item { name: "vardct-alpha-layer-under-ecup2-modular-layer".into(), bytes: b, frames: 2, keyframes: 1, width: 40, height: 24 });
+    }
     // large varblocks in two 256x256 groups: the four lazily built coefficient orders (DCT128x128, 64x128, 256x256,
     // 128x256) and, with 64x64 / 32x64, the largest constant ones; the first also with Gabor + EPF
     for (name, t, size, filters) in [
